@@ -414,7 +414,8 @@ SMALL = ["race", "race-wait", "timeout", "after", "spawn-failure", "solve", "sol
 def bounds(tier, hname):
     """(deviation bound, budget of executions per shard)"""
     if tier == "quick":
-        return 1, 3000
+        # the two submit-vs-shutdown races are small enough for two deviations in the quick tier (D27 needed two)
+        return (2, 40000) if hname in ("race", "race-wait") else (1, 3000)
     return (2, 40000) if hname in SMALL else (1, 40000)
 
 
